@@ -31,7 +31,7 @@ func C02(c *Ctx) {
 	p.PredSpec = func(r *rand.Rand) mon.Spec { return mon.Spec{B: pick(r, 0, 0, 1, 4, 4)} }
 	p.StateSpec = func(r *rand.Rand) mon.Spec { return mon.Spec{S: pick(r, 1, 2, 3)} }
 	cfg := &MCConfig{
-		Profile: p, Grammars: c02Strata(), NGrammars: c.N(200, 2000),
+		Profile: p, Grammars: append(c02Strata(), c02RepScope()...), NGrammars: c.N(200, 2000),
 		FlagSets:  [][]string{{}, {"-optimize-parser"}, {"-receiver-name", "cur"}},
 		InputsPer: c.N(90, 200), ExhaustLimit: c.N(150, 800), ExhaustLen: 6,
 		OptSets:     []OptSet{{Name: "default"}, {Name: "memoize", Memo: true}},
@@ -95,6 +95,19 @@ func C02(c *Ctx) {
 		return out
 	}
 	c.ModelCheck(&icfg)
+}
+
+// c02RepScope: an unlabelled repetition standing directly in a sequence whose operand is an action
+// expression (or a group) that binds a label of the same name as one bound earlier in the sequence; a
+// block of the enclosing sequence reads the label afterwards.
+func c02RepScope() []*gast.Grammar {
+	mk := func(rules ...*gast.Rule) *gast.Grammar { return &gast.Grammar{Rules: rules} }
+	r := func(n string, e *gast.Expr) *gast.Rule { return &gast.Rule{Name: n, Expr: e} }
+	return []*gast.Grammar{
+		mk(r("S", gast.A(gast.S(gast.Lab("x", gast.Ref("H")), gast.Star(gast.A(gast.S(gast.L(","), gast.Lab("x", gast.Ref("I"))), 2, mon.Spec{})), gast.NotE(gast.Dot())), 1, mon.Spec{})),
+			r("H", gast.A(gast.Plus(gast.Cl(gast.Chars("ab"))), 3, mon.Spec{R: 2})), r("I", gast.A(gast.Plus(gast.Cl(gast.Chars("cd"))), 4, mon.Spec{R: 2}))),
+		mk(r("S", gast.A(gast.S(gast.Lab("x", gast.L("h")), gast.Lab("y", gast.L("k")), gast.Plus(gast.A(gast.S(gast.L(";"), gast.Lab("y", gast.Cl(gast.Chars("ab"))), gast.Lab("x", gast.Opt(gast.L("!")))), 2, mon.Spec{R: 3})), gast.AndC(5, mon.Spec{}), gast.Star(gast.Dot())), 1, mon.Spec{}))),
+	}
 }
 
 func c02DeepStrata() []*gast.Grammar {
@@ -498,6 +511,9 @@ func c05Strata() []*gast.Grammar {
 		mk(r("S", gast.S(gast.Opt(gast.S(gast.St(1, mon.Spec{S: 1}), gast.AndE(gast.L("a")), gast.L("b"))), gast.St(2, mon.Spec{S: 2}), gast.AndE(gast.L("a")), obs(3), gast.Star(gast.Dot()), obs(4)))),
 		mk(r("S", gast.S(gast.Star(gast.S(gast.St(1, mon.Spec{S: 8}), gast.St(2, mon.Spec{S: 1}), gast.NotE(gast.L("c")), gast.L("a"), gast.L("b"))), gast.St(3, mon.Spec{S: 2}), gast.St(4, box), gast.NotE(gast.L("c")), obs(5),
 			gast.C(gast.S(gast.St(6, mon.Spec{S: 16 | 1}), gast.AndE(gast.Dot()), gast.L("z")), gast.S(gast.St(7, mon.Spec{S: 2}), gast.AndE(gast.Dot()), obs(8), gast.Star(gast.Dot()))), obs(9)))),
+		// two keys holding slices of one Cloner slice type that start at the same element with different
+		// lengths; snapshots are taken and restored around them, each key keeps its own value
+		mk(r("S", gast.S(gast.St(1, mon.Spec{S: 128 | 1}), gast.C(gast.S(gast.St(2, mon.Spec{S: 1}), cls("ab"), gast.L("!")), gast.S(cls("ab"), obs(3))), obs(4), gast.Star(gast.C(gast.S(gast.St(5, mon.Spec{S: 128}), gast.L("x"), gast.AndE(gast.L("y")), obs(6)), gast.S(gast.Dot(), obs(7)))), obs(8)))),
 		// deep nesting: a failure that travels up through many nested sequence/choice levels, then another
 		// descent that changes the state at every level and fails at the bottom, then an observer (a
 		// bounded store of recycled snapshots is exhausted by the depth alone) - see the deep inputs of C05
@@ -725,6 +741,10 @@ func c12Strata() []*gast.Grammar {
 		r("E", gast.S(gast.Ref("T"), gast.Star(gast.S(gast.C(ops...), gast.Ref("T"))))), r("T", gast.C(gast.Plus(gast.Cl(gast.Chars("01"))), gast.S(gast.L("("), gast.Ref("E"), gast.L(")")))))
 	digit := func() *gast.Expr { return gast.Cl(&gast.ClassSpec{Ranges: [][2]rune{{'0', '9'}}}) }
 	return []*gast.Grammar{
+		// the end of input expected next to terminals that matched inside a negative predicate at the same
+		// offset (keyword guards): "!x" entries sort before "!." - the list still says EOF, last
+		mk(r("S", gast.S(gast.Star(gast.S(gast.Ref("W"), gast.L(" "))), gast.Ref("E"))), r("W", gast.S(gast.NotE(gast.L("end")), gast.Plus(gast.Cl(&gast.ClassSpec{Ranges: [][2]rune{{'a', 'z'}}})))), r("E", gast.NotE(gast.Dot()))),
+		mk(r("S", gast.S(gast.Star(gast.C(gast.S(gast.NotE(gast.Cl(gast.Chars("#;"))), gast.NotE(gast.Li("x")), gast.Cl(gast.Chars("abxX#"))), gast.L(" "))), gast.C(gast.NotE(gast.Dot()), gast.L(";"))))),
 		wide,
 		// alternatives that can never be chosen (a literal after a literal that is its prefix, a class
 		// after a wider class, the same terminal twice) still fail where they are tried and belong to
@@ -826,6 +846,24 @@ func c14Strata() []*gast.Grammar {
 	mk := func(rules ...*gast.Rule) *gast.Grammar { return &gast.Grammar{Rules: rules} }
 	r := func(n string, e *gast.Expr) *gast.Rule { return &gast.Rule{Name: n, Expr: e} }
 	act := func(e *gast.Expr, id int) *gast.Expr { return gast.A(e, id, mon.Spec{}) }
+	// a grammar with 72 distinct failure labels, all listed by one operator (and the upper half by a
+	// second, inner one): every one of them is recovered where it is listed
+	var manyAlts []*gast.Expr
+	var manyLabels, upper []string
+	for i := 0; i < 72; i++ {
+		lb := fmt.Sprintf("M%02d", i)
+		manyLabels = append(manyLabels, lb)
+		if i >= 36 {
+			upper = append(upper, lb)
+		}
+		manyAlts = append(manyAlts, gast.S(gast.L(fmt.Sprintf("%c%c", 'a'+i/8, '0'+i%8)), gast.C(gast.L("."), gast.Thr(lb))))
+	}
+	many := mk(r("S", gast.S(gast.Star(gast.C(gast.Rec(gast.Ref("K"), act(gast.L("?"), 1), manyLabels...), gast.S(gast.L("#"), gast.Rec(gast.Rec(gast.Ref("K"), act(gast.L("!"), 2), upper...), act(gast.L("?"), 3), manyLabels...)))), gast.Star(gast.Dot()))),
+		r("K", gast.C(manyAlts...)))
+	return append(c14StrataRest(mk, r, act), many)
+}
+
+func c14StrataRest(mk func(rules ...*gast.Rule) *gast.Grammar, r func(n string, e *gast.Expr) *gast.Rule, act func(e *gast.Expr, id int) *gast.Expr) []*gast.Grammar {
 	return []*gast.Grammar{
 		// sibling recovery operators at one depth with different label sets; the later one throws a label
 		// that only the earlier sibling and an enclosing catch-all list
